@@ -89,7 +89,7 @@ impl<T> ClientRuntimeState<T> where T : Read + Write + Send + Sync {
 
     pub(crate) fn process_connecting(&mut self, client: &mut MqttClientImpl) -> GneissResult<ClientImplState> {
         // let mut connect = (self.threaded_config.connection_factory)();
-        let timeout_timepoint = Instant::now() + *client.connect_timeout();
+        let timeout_timepoint = add_duration_saturating(&Instant::now(), *client.connect_timeout());
 
         let connection_factory = self.connection_factory.clone();
         let (connection_recv, connection_send) = new_sync_result_pair::<GneissResult<T>>();
